@@ -298,6 +298,13 @@ impl Sim {
         g().fds[fd as usize].send_max = n;
     }
 
+    /// Drop the not yet fired transient outcomes armed on one client's connection.
+    pub fn disarm_conn(&mut self, client: usize) {
+        let conn = self.clients[client].conn;
+        let before = g().armed.len();
+        g().armed.retain(|a| a.fired || a.conn != conn);
+        if g().armed.len() != before { world::log_event(&format!("disarm conn {}", conn as i64)); }
+    }
     pub fn arm(&mut self, inst: usize, op: Op, conn: Option<usize>, class: Option<FileClass>, nth: u64, action: Action) {
         let conn = conn.map(|c| self.clients[c].conn).unwrap_or(NONE);
         g().armed.push(Armed { instance: inst, op, conn, class, countdown: nth, action, fired: false });
